@@ -224,7 +224,11 @@ def gen_history(rng, prof, probes):
         elif kind == 'probe':
             pass
         elif kind == 'reopen':
-            sh.bk = {n: False for n in sh.bk}
+            # a backup directory is reused after a reopen only in the C20 profile: between the two Backup calls the source
+            # may then have been migrated to the other format (every file rewritten under its old name, no message
+            # touched) or have had index files rebuilt
+            if not prof.get('bk_over_reopen'):
+                sh.bk = {n: False for n in sh.bk}
             if sh.open:
                 ops.append('close')
                 sh.open = False
